@@ -15,7 +15,12 @@ def run(ctx):
     progs = res['programs']
     sched = res['schedules']
     for x in sched:
-        if x.get('inconsistent'):
+        if x.get('inconsistent') and x.get('point') == -1:
+            ctx.fail(f'{x["handler"]}: after a {x["writer"]} (nothing was committed) the response states MdibVersion '
+                     f'{x["response_version"]} but shows {x["inconsistent"]} (seen vs. value at that version)',
+                     {'handler': x['handler'].replace('All', ''), 'clause': 'no-transaction write'},
+                     {'stream': 'schedules', 'case': x})
+        elif x.get('inconsistent'):
             ctx.fail(f'{x["handler"]}: a {x["writer"]} transaction committing at depth-0 point {x["point"]} of the handler makes '
                      f'the response state MdibVersion {x["response_version"]} but show {x["inconsistent"]} '
                      f'(seen vs. value at that version)',
